@@ -1,5 +1,6 @@
 import ZbossModel.Proofs.HostBound
 import ZbossModel.Proofs.HostRest
+import ZbossModel.Proofs.HostFifo
 /-! # C14 - blocking requests are mutually exclusive and served first-come first-served -/
 namespace Zboss.Host
 
@@ -88,6 +89,29 @@ theorem C14_nonblocking_waits_only_for_the_link (evs : List Ev) (r : Req) (hr : 
 /-! ## non-vacuity: blocking 1 awaits its response, blocking 2 stays queued, non-blocking 3 is written at once -/
 example : ((runEvents {} [.start 1 1 true 1 3013, .rxAck 0, .start 2 2 true 1 5026, .start 3 3 false 1 7039]).2.map
     fun l => l.filter isWD) = [[.write 1 0 0 1], [], [], [.write 3 0 1 1]] := by decide +kernel
+
+/-- **first come, first served - every history**: if blocking request `r1` was issued before blocking request `r2` (it
+    stands earlier in the request list) and is still waiting for the blocking lock, then `r2` is not past the lock: it has
+    written nothing and awaits nothing.  Blocking requests get their turn in the order in which they were issued - whatever
+    ACKs, responses, timeouts, cancellations, closes and reconnects happen in between.  (`Proofs/HostFifo.lean`: the lock's
+    queue is always a sub-list of the request list, because a request joins it on its first step, when it is still the
+    newest one; the holder is the head of the queue; a waiting request is in the queue.) -/
+theorem C14_first_come_first_served (evs : List Ev) (r1 r2 : Req) (pre post : List Req)
+    (horder : (runEvents {} evs).1.reqs = pre ++ r1 :: post) (h2 : r2 ∈ post)
+    (hb2 : r2.blocking = true) (hw1 : r1.phase = .waitB) : afterB r2.phase = false :=
+  fcfs evs r1 r2 pre post horder h2 hb2 hw1
+
+/-- the queue of the blocking lock is ordered like the issue order, in every reachable state -/
+theorem C14_queue_in_issue_order (evs : List Ev) :
+    (runEvents {} evs).1.bq.Sublist ((runEvents {} evs).1.reqs.map (·.id)) := (qu_reachable evs).sub
+
+/-! ## non-vacuity of `C14_first_come_first_served`: blocking request 1 awaits its response, blocking requests 2 and 3 were
+    issued in that order and both wait for the lock (`r1` := request 2, `r2` := request 3); request 1 is cancelled: request 2
+    gets its turn, request 3 still waits -/
+example : let st := (runEvents {} [.start 1 1 true 1 300013, .rxAck 0, .start 2 2 true 1 500026, .start 3 3 true 1 700039]).1
+    st.bq = [1, 2, 3] ∧ (st.reqs.map fun r => (r.id, r.blocking, r.phase)) = [(1, true, .waitRsp), (2, true, .waitB), (3, true, .waitB)] ∧
+    (step st (.cancel 1)).bq = [2, 3] ∧
+    ((step st (.cancel 1)).reqs.map fun r => (r.id, r.phase)) = [(1, .done), (2, .waitAck), (3, .waitB)] := by decide +kernel
 
 /-! ## across `close()` / `connect()` on the same object: `C14_exclusive` quantifies over every history, `connect` events
     included.  Blocking request 1 awaits its response; a deliberate reset is in progress when the port is closed (the
